@@ -21,7 +21,7 @@ import multiprocessing as mp
 from types import SimpleNamespace
 from unittest import mock
 
-from harness import common
+from harness import common, gen_targets
 from harness.common import Check, coq_bool
 
 META = {
@@ -578,6 +578,7 @@ def run(ck: Check) -> None:
     common.assert_repo_imports()
     t0 = time.time()
     ck.coq_props(extra_targets=["exec/RunC14.vo"])
+    gen_targets.run(ck)          # translator tie: Gallina regenerated from the source + coq/gen/EquivC14.v
     t_props = time.time() - t0
     thorough = ck.tier == "thorough"
     import logging
@@ -895,6 +896,7 @@ def run(ck: Check) -> None:
     ]
     ck.notes.append(f"phase times (s): coq build + Print Assumptions {t_props:.1f}, implementation runs {t_impl:.1f}, case evaluation in coqc {t_coq:.1f} (A exhaustive {tt[1]-tt[0]:.1f}, A other {tt[2]-tt[1]:.1f}, B {tt[3]-tt[2]:.1f}, C {tt[4]-tt[3]:.1f})")
     ck.notes.append("lpt_four_thirds is fully proved (sharp form 4/3 - 1/(3 gs)); the brute-force comparison is reported as evidence only")
+    ck.gen_equiv_verdict()
 
 
 def replay(obj) -> bool:
